@@ -230,7 +230,7 @@ func runC03(c *kc.Ctx) {
 				if i == 0 {
 					c.Sample(map[string]string{"group": g.Name, "program": p.String(), "state": st.snapshot(g)})
 				}
-				if f.model != "" {
+				if f.model != "" && i%modelStride(c, f) == 0 {
 					mcs = append(mcs, mc{g, "grp " + f.model + " " + p.String(), st.snapshot(g)})
 				}
 			}
